@@ -165,9 +165,12 @@ def mini_docs():
                   [Op(T), Op(T), Op(T), Op(T)]]))
     M.append(Doc([[GComment('!!!COM: x')], [H('**kern')], [FieldComment('!fc')], [Note('4', pitch='c')], [Op('*^')],
                   [Note('4', pitch='e'), FieldComment('!in')], [GComment('!! inside')], [Op('*v'), Op('*v')], [Rest('4')], [Op(T)]]))
+    # the same text under different categories in one document ('f' is a pitch, a dynamic, a chord label and a syllable), both column orders
+    M.append(Doc([[H('**kern'), H('**dynam'), H('**harm'), H('**text')], [Note('', pitch='f'), dyn('f'), harm('f'), lyr('f')],
+                  [Note('', pitch='C'), Null('.'), harm('C'), lyr('C')], [Op(T), Op(T), Op(T), Op(T)]]))
+    M.append(Doc([[H('**text'), H('**harm'), H('**dynam'), H('**kern')], [lyr('f'), harm('f'), dyn('f'), Note('', pitch='f')],
+                  [lyr('C'), harm('C'), Null('.'), Note('', pitch='C')], [Op(T), Op(T), Op(T), Op(T)]]))
     return M
-
-
 
 
 def with_clef(D, clef='*clefG2'):
